@@ -38,13 +38,17 @@ type PnftModel struct {
 	Denoms map[string]*PnftDenom
 	Tokens map[TokenKey]*PnftToken
 	Burned int
+	// DeletedDenoms / BurnedTokens remember identifiers that existed once (generators aim
+	// re-creations at them).
+	DeletedDenoms map[string]bool
+	BurnedTokens  map[TokenKey]bool
 	// FormerOwner remembers accounts that handed a denom or token over (for non-triviality labels)
 	FormerDenomOwner map[string]map[string]bool
 	FormerTokenOwner map[TokenKey]map[string]bool
 }
 
 func NewPnftModel() *PnftModel {
-	return &PnftModel{Denoms: map[string]*PnftDenom{}, Tokens: map[TokenKey]*PnftToken{},
+	return &PnftModel{Denoms: map[string]*PnftDenom{}, Tokens: map[TokenKey]*PnftToken{}, DeletedDenoms: map[string]bool{}, BurnedTokens: map[TokenKey]bool{},
 		FormerDenomOwner: map[string]map[string]bool{}, FormerTokenOwner: map[TokenKey]map[string]bool{}}
 }
 
@@ -59,6 +63,12 @@ func (m *PnftModel) Clone() *PnftModel {
 		o.Tokens[k] = &c
 	}
 	o.Burned = m.Burned
+	for k := range m.DeletedDenoms {
+		o.DeletedDenoms[k] = true
+	}
+	for k := range m.BurnedTokens {
+		o.BurnedTokens[k] = true
+	}
 	for k, s := range m.FormerDenomOwner {
 		o.FormerDenomOwner[k] = cloneSet(s)
 	}
@@ -198,6 +208,7 @@ func (w *World) observePNFT(obs *TxObs) error {
 				w.Label("pnft non-empty denom deleted")
 			}
 			delete(m.Denoms, x.Id)
+			m.DeletedDenoms[x.Id] = true
 			w.Label("pnft denom deleted")
 		case *pnfttypes.MsgTransferDenomRequest:
 			d := m.Denoms[x.Id]
@@ -288,6 +299,7 @@ func (w *World) observePNFT(obs *TxObs) error {
 			}
 			delete(m.Tokens, k)
 			delete(m.FormerTokenOwner, k)
+			m.BurnedTokens[k] = true
 			m.Burned++
 			w.Label("pnft burned")
 		}
